@@ -173,14 +173,17 @@ def parseOut : List String → Option Out
 def splitArrow (toks : List String) : List String × List String :=
   (toks.takeWhile (· ≠ "=>"), (toks.dropWhile (· ≠ "=>")).drop 1)
 
-/-- `h INV RET <op> => <answer>` records one operation, `end` decides the history recorded so far. -/
+/-- `h INV RET <op> => <answer>` (or `hf …`) records one operation, `end` decides the history recorded so far. -/
 def stepLine (s : List HOp) (toks : List String) : List HOp × String :=
   match toks with
   | ["end"] =>
     match decideHist s.reverse with
     | .accept => ([], "accept")
     | .reject why => ([], "reject " ++ why)
-  | "h" :: i :: r :: rest =>
+  | tag :: i :: r :: rest =>
+    -- `hf` marks a mutation that went through a flushkv wrapper and answered `closed` (harness-side classification
+    -- only): for the contract it is an operation like any other
+    if tag != "h" && tag != "hf" then (s, "bad-op") else
     let (opT, outT) := splitArrow rest
     match i.toNat?, r.toNat?, parseDOp opT, parseOut outT with
     | some i, some r, some k, some o => ({ inv := i, ret := r, kind := k, out := o } :: s, "ok")
